@@ -135,6 +135,12 @@ def fragment(rng, data, skip, prompt, maxpieces=8, one_byte=False, lookalike_ok=
                     merged.append(p)
                 off += len(p)
             return merged
+    # fallback (e.g. one piece only, and a 4096-byte read boundary falls right behind a look-alike): shift the
+    # boundaries by cutting off a short first piece
+    for cut in range(1, min(n, 200)):
+        pieces = [data[:cut], data[cut:]]
+        if not [b for b in boundaries(pieces, skip) if b < n and data[skip:b].endswith(prompt)]:
+            return pieces
     return [data]
 
 
